@@ -7,6 +7,8 @@ import Uniflow.Props.C01TieFn2
 import Uniflow.Props.C05TieFn1
 import Uniflow.Props.C05TieFn2
 import Uniflow.Props.C04TieFn1
+import Uniflow.Props.C01TieLayer
+import Uniflow.Props.C05TieLayer
 
 theorem C02.dep_C01_packet_packet_as_modelled : type_of% C01.src_packet_packet_as_modelled := C01.src_packet_packet_as_modelled
 theorem C02.dep_C01_packet_reader_as_modelled : type_of% C01.src_packet_reader_as_modelled := C01.src_packet_reader_as_modelled
@@ -18,3 +20,7 @@ theorem C02.dep_C05_port_outport_as_modelled_1 : type_of% C05.src_port_outport_a
 theorem C02.dep_C05_port_outport_as_modelled_2 : type_of% C05.src_port_outport_as_modelled_2 := C05.src_port_outport_as_modelled_2
 theorem C02.dep_C04_process_process_as_modelled_1 : type_of% C04.src_process_process_as_modelled_1 := C04.src_process_process_as_modelled_1
 theorem C02.dep_C04_process_process_as_modelled_2 : type_of% C04.src_process_process_as_modelled_2 := C04.src_process_process_as_modelled_2
+theorem C02.dep_C01_packet_hook_as_modelled : type_of% C01.src_packet_hook_as_modelled := C01.src_packet_hook_as_modelled
+theorem C02.dep_C05_port_openhook_as_modelled : type_of% C05.src_port_openhook_as_modelled := C05.src_port_openhook_as_modelled
+theorem C02.dep_C05_port_closehook_as_modelled : type_of% C05.src_port_closehook_as_modelled := C05.src_port_closehook_as_modelled
+theorem C02.dep_C05_port_listener_as_modelled : type_of% C05.src_port_listener_as_modelled := C05.src_port_listener_as_modelled
